@@ -11,6 +11,7 @@ import Driver.C20
 import Driver.C19
 import Driver.C16
 import Driver.C17
+import Driver.C11
 open Lean Driver
 
 def dispatch (j : Json) : R Json := do
@@ -30,6 +31,7 @@ def dispatch (j : Json) : R Json := do
   | "C19" => Driver.C19.handle op j
   | "C16" => Driver.C16.handle op j
   | "C17" => Driver.C17.handle op j
+  | "C11" => Driver.C11.handle op j
   | _ => throw s!"unknown property {p}"
 
 partial def loop (h : IO.FS.Stream) (out : IO.FS.Stream) : IO Unit := do
